@@ -65,8 +65,13 @@ def check_program(name, slots, program, w, wd, sieve, stats, split_depth, primed
     ref = assemble_image(prim_text, w, wd, 'ref')
     stats['assemblies'] += 1
     if ref[0] != 'ok':
-        # the inlined program itself is not assemblable (e.g. a word out of range at this width): not a macro question
+        # the inlined program itself is not assemblable (a label declared twice, a word out of range at this width): then the macro
+        # program has no image either
         stats['reference_not_assemblable'] = stats.get('reference_not_assemblable', 0) + 1
+        got = assemble_image(text, w, wd, 'orig')
+        stats['assemblies'] += 1
+        if got[0] == 'ok':
+            bad('macro program assembles although its inlining is rejected', ref[1], 'assembled', {'inlined': prim_text})
         return None
     got = assemble_image(text, w, wd, 'orig')
     stats['assemblies'] += 1
